@@ -216,15 +216,45 @@ func main() {
 									written[id] = true // plain store: not a read
 								}
 							}
+						} else if id := baseIdent(l); id != nil {
+							// a store through the variable: g[k] = v, g.f = v, *g = v, g[i].f = v
+							if o := info.Uses[id]; o != nil && isGlobal(o) {
+								w[id.Name] = true
+							}
 						}
 					}
 				case *ast.IncDecStmt:
-					if id, ok := x.X.(*ast.Ident); ok {
+					if id := baseIdent(x.X); id != nil {
 						if o := info.Uses[id]; o != nil && isGlobal(o) {
 							w[id.Name] = true
 						}
 					}
+				case *ast.UnaryExpr:
+					// &g handed out: whoever gets it can write the variable
+					if x.Op == token.AND {
+						if id := baseIdent(x.X); id != nil {
+							if o := info.Uses[id]; o != nil && isGlobal(o) {
+								w[id.Name] = true
+							}
+						}
+					}
+				case *ast.SliceExpr:
+					// g[:] of a package-level ARRAY handed out aliases the variable's storage
+					if id, ok := x.X.(*ast.Ident); ok {
+						if o := info.Uses[id]; o != nil && isGlobal(o) {
+							if _, isArr := o.Type().Underlying().(*types.Array); isArr {
+								w[id.Name] = true
+							}
+						}
+					}
 				case *ast.CallExpr:
+					if fid, ok := x.Fun.(*ast.Ident); ok && fid.Name == "delete" && len(x.Args) == 2 {
+						if id := baseIdent(x.Args[0]); id != nil {
+							if o := info.Uses[id]; o != nil && isGlobal(o) {
+								w[id.Name] = true
+							}
+						}
+					}
 					switch fx := x.Fun.(type) {
 					case *ast.Ident:
 						if fo, ok := info.Uses[fx].(*types.Func); ok && fo.Pkg() == tpkg {
@@ -572,5 +602,31 @@ func writeIfChanged(path, content string) {
 	if err := os.WriteFile(path, []byte(content), 0o644); err != nil {
 		fmt.Fprintln(os.Stderr, err)
 		os.Exit(1)
+	}
+}
+
+// baseIdent: the identifier a store expression goes through (g in g[k], g.f, *g, g[i].f); nil for a
+// plain identifier (handled separately) and for anything else.
+func baseIdent(e ast.Expr) *ast.Ident {
+	depth := 0
+	for {
+		switch x := e.(type) {
+		case *ast.IndexExpr:
+			e = x.X
+		case *ast.SelectorExpr:
+			e = x.X
+		case *ast.StarExpr:
+			e = x.X
+		case *ast.ParenExpr:
+			e = x.X
+		case *ast.Ident:
+			if depth == 0 {
+				return nil
+			}
+			return x
+		default:
+			return nil
+		}
+		depth++
 	}
 }
